@@ -898,3 +898,51 @@ func VH_mutate(prog int, mode int) {
 	}
 	checkAgainstReference(mutated)
 }
+
+// VH_long (C08): long lists around the one numeric limit the grammar has. kind 0: a call with n
+// arguments (no limit: the grammar's argument list is unbounded, and the variadic built-ins take
+// any number); kind 1: a function declaration with n parameters (accepted iff n <= 255); kind 2:
+// an array literal with n elements (no limit). The last list element is a token of arbitrary type
+// and so is the token after the list, so the accept/reject boundary and the diagnostic position
+// are decided for every continuation at that length.
+func VH_long(kind int, n int) {
+	toks := []token.Token{}
+	k := 0
+	add := func(ty token.TokenType) {
+		toks = append(toks, mkTok(k, ty))
+		k++
+	}
+	switch kind {
+	case 0:
+		add(token.IDENTIFIER)
+		add(token.LEFT_PAREN)
+	case 1:
+		add(token.FUN)
+		add(token.IDENTIFIER)
+		add(token.LEFT_PAREN)
+	default:
+		add(token.LEFT_BRACKET)
+	}
+	for i := 0; i < n; i++ {
+		if i > 0 {
+			add(token.COMMA)
+		}
+		if i == n-1 {
+			add(anyType())
+		} else {
+			add(token.IDENTIFIER)
+		}
+	}
+	add(anyType())
+	switch kind {
+	case 0:
+		add(token.SEMICOLON)
+	case 1:
+		add(token.LEFT_BRACE)
+		add(token.RIGHT_BRACE)
+	default:
+		add(token.SEMICOLON)
+	}
+	toks = append(toks, token.Token{Type: token.EOF, Lexeme: "", Line: 1})
+	checkAgainstReference(toks)
+}
